@@ -6,34 +6,29 @@ import QV.Shared.SeqGateWire
 namespace QV.C20
 open QV QV.SeqGateWire
 
-/-- what the real `expand_defgate_sequences` returned, decoded -/
-inductive ImplOut where
-  | ok (body : List (Instr String)) (kept : List String) (intact : Bool)
-  | err (e : Err)
-  deriving DecidableEq, Repr
-
-def decodeOut : Sexp → Option ImplOut
-  | .list [.atom "ok", .list (.atom "body" :: is), .list (.atom "kept" :: ks), .list [.atom "intact", .atom b]] =>
-    match decodeAll decodeInstr is, decodeAll decodeStr ks with
-    | some is, some ks => some (.ok is ks (b == "true"))
-    | _, _ => none
-  | .list [.atom "err", e] => (decodeErr e).map .err
-  | _ => none
-
-/-- the model's answer in the same shape -/
-def modelOut (p : Program String) (sel : String → Bool) : Option ImplOut :=
+/-- the model's answer in the shape of one entry point's output -/
+def modelOut (p : Program String) (sel : String → Bool) : Option PlainOut :=
   match expandProgram p sel with
   | .ok q => some (.ok q.body (q.defs.map (·.name)) true)
   | .err e => some (.err e)
   | .outOfFuel => none
 
-/-- The specification evaluated on the implementation's output `o` (theorems in Props.lean tie each
-conjunct to the declarative statement):
+/-- the model's prediction for "expanding the result again with the same filter changes nothing" -/
+def modelAgain (p : Program String) (sel : String → Bool) : Bool :=
+  match expandProgram p sel with
+  | .ok q =>
+    (match expandProgram q sel with
+      | .ok q' => decide (q'.body = q.body) && q'.defs.map (·.name) == q.defs.map (·.name)
+      | _ => false)
+  | _ => true
+
+/-- The specification evaluated on ONE entry point's output `o` (theorems in Props.lean tie each conjunct to
+the declarative statement):
 * returned `Ok`: the body is the one `expand` computes (`C20_expand_ok_iff_pure`) **and**, independently of
-  the model, the verifier `verifyPure` accepts it as the stack-free expansion (`C20_verifyPure_iff`), the retained
-  definitions are exactly those `keptDefs` selects (`C20_kept_iff`), in order, and untouched;
+  the model, the verifier `verifyPure` accepts it as the stack-free expansion (`C20_verifyPure_iff`), the
+  retained definitions are exactly those `keptDefs` selects (`C20_kept_iff`), in order, and untouched;
 * returned `Err e`: `expand` reports `e` (`C20_expand_err_iff`). -/
-def specCheck (p : Program String) (sel : String → Bool) (o : ImplOut) : Bool :=
+def specCheck (p : Program String) (sel : String → Bool) (o : PlainOut) : Bool :=
   match o with
   | .ok body kept intact =>
     decide (expand p.defs sel p.body = .ok body) &&
@@ -60,30 +55,40 @@ def handle (inp out : Sexp) : CaseResult :=
   | none => .bad s!"undecodable input {inp}"
   | some (p, selNames) =>
     let sel : String → Bool := fun n => selNames.contains n
-    match decodeOut out with
+    match decodeObs out with
     | none =>
       { agree := false, specOk := false, nontrivial := false, tags := ["impl-undecodable-or-crash"],
         detail := s!"impl={out}" }
-    | some o =>
+    | some obs =>
+      let o := obs.plain
       let m := modelOut p sel
       let seqs := seqNames p.defs
       let selectedSeqs := seqs.filter sel
       let kept := (keptDefs p.defs sel).map (·.name)
+      let keptSelected := selectedSeqs.filter fun n => kept.contains n
+      let invokedNames := p.body.filterMap fun i => match i with | .gate g => some g.name | _ => none
       let tags :=
         (match o with
           | .ok .. => ["ok"]
           | .err e => ["err", "err-" ++ errKind e]) ++
-        [s!"defs{min p.defs.length 5}", s!"body{min p.body.length 8}", s!"seqdefs{min seqs.length 5}",
-         s!"selseq{min selectedSeqs.length 5}", s!"nest{min (nestDepth p.defs sel [] p.body) 4}"] ++
-        (if selectedSeqs.any (fun n => kept.contains n) then ["selected-kept-by-reachability"] else []) ++
+        [s!"defs{if p.defs.length ≤ 5 then p.defs.length else if p.defs.length ≤ 16 then 16 else if p.defs.length ≤ 32 then 32 else 64}",
+         s!"body{if p.body.length ≤ 8 then p.body.length else if p.body.length ≤ 32 then 32 else 128}",
+         s!"seqdefs{min seqs.length 5}",
+         s!"selseq{min selectedSeqs.length 5}", s!"nest{min (nestDepth p.defs sel [] p.body) 6}"] ++
+        (if !keptSelected.isEmpty then ["selected-kept-by-reachability"] else []) ++
+        (if keptSelected.any (fun n => invokedNames.contains n) then ["kept-selected-invoked-in-body"] else []) ++
+        (if !keptSelected.isEmpty && kept.length == p.defs.length then ["all-retained-some-selected"] else []) ++
         (if selectedSeqs.any (fun n => !kept.contains n) then ["selected-dropped"] else []) ++
         (if p.defs.any (fun d => match d.spec with | .other => true | _ => false) then ["has-nonseq-def"] else []) ++
-        (if p.body.any (fun i => match i with | .other _ => true | _ => false) then ["has-other-instr"] else [])
-      { agree := m == some o,
-        specOk := specCheck p sel o,
+        (if p.body.any (fun i => match i with | .other _ => true | _ => false) then ["has-other-instr"] else []) ++
+        (if inputHasExtras inp then ["extras"] else [])
+      { -- BOTH entry points must return what the model computes; the repeated-call flag must be the model's
+        agree := m == some obs.plain && m == some obs.mapped && obs.again == modelAgain p sel,
+        specOk := specCheck p sel obs.plain && specCheck p sel obs.mapped &&
+          obs.fullsame && obs.again && obs.errfmt,
         nontrivial := p.body.any (isSelectedInvocation p.defs sel),
         tags := tags,
-        detail := s!"model={repr m} impl={out}" }
+        detail := s!"model={repr m} again={modelAgain p sel} impl={out}" }
 
 end QV.C20
 
